@@ -195,6 +195,8 @@ class Machine:
         self.meta.append(dict(op=op, **(meta or {})))
         try:
             val = fn()
+            if val is None:
+                val = np.zeros(0)      # methods returning None: an empty array on both sides
             self.regs[dst] = val
             self.impl.append(("ok", dump_obj(val)))
         except Exception as e:  # noqa
